@@ -200,6 +200,12 @@ SOLO_COMPOSITES = [
                                                  ["zeta", "alpha", "mid"])]}, enf=True),
     L("adj_two_candidates", {"oneOf": [obj({"t": {"type": "string", "enum": ["A"]}, "u": {"type": "string", "enum": ["X"]}, "c": INT}, ["t", "u", "c"]),
                                        obj({"t": {"type": "string", "enum": ["B"]}, "u": {"type": "string", "enum": ["Y"]}, "c": STR}, ["t", "u", "c"])]}, enf=True),
+    # near-misses of the tagged forms: a "tag" with two values, a one-property variant object that admits further (typed) members or
+    # bounds its member count: none of these is the serde tagging shape, so they must not be read as one
+    L("int_tag_multi", {"oneOf": [obj({"t": {"type": "string", "enum": ["a", "b"]}, "x": INT}, ["t", "x"]), obj({"t": {"type": "string", "enum": ["c"]}, "y": STR}, ["t"])]}),
+    L("ext_like_apT", {"oneOf": [obj({"V": INT}, ["V"], additionalProperties=INT), {"type": "string", "enum": ["U"]}]}, enf=False),
+    L("ext_like_maxprops", {"oneOf": [dict(obj({"V": INT}, ["V"]), maxProperties=1), {"type": "string", "enum": ["U"]}]}, enf=False),
+    L("ext_like_minprops", {"oneOf": [dict(obj({"V": INT}, ["V"]), minProperties=1), obj({"W": STR}, ["W"], additionalProperties=False)]}, enf=False),
     L("int_tag_mixed", {"oneOf": [obj({"t": {"type": "string", "enum": ["A"]}, "x": INT}, ["t", "x"], additionalProperties=False),
                                   obj({"t": {"type": "string", "enum": ["B"]}, "y": INT}, ["t"])]}),
     L("int_tag_shared", {"oneOf": [obj({"t": {"type": "string", "enum": ["A"]}, "v": INT}, ["t", "v"]),
